@@ -86,8 +86,8 @@ def stepL2Agg (st : St) (cmd : List String) (got : String) : Option (St × Verdi
               | some g =>
                 if reps.all Rep.wf then
                   let r := renderRep (g reps)
-                  if r != rzS then some ("L2 aggregate model = Go representation; model: " ++ r.take 400)
-                  else if !rz.wf then some ("well-formed result of " ++ fn ++ " on well-formed operands")
+                  if !rz.wf then some ("well-formed result of " ++ fn ++ " on well-formed operands")
+                  else if r != rzS then some ("L2 aggregate model = Go representation; model: " ++ r.take 400)
                   else none
                 else none
             some (st', firstFail [
